@@ -35,6 +35,8 @@ EXPECTED_NOT_UNDERSTOOD = {
     "seeded/C12-O/patch.diff": "host step lookup vectorised with pd.cut over step starts: pd.cut is not interpreted",
     "seeded/C13-P/patch.diff": "heights by one reverse pass over the node map instead of the recursion: another traversal; the rule abstracts the recursive call",
     "seeded/C18-O/patch.diff": "binary-search fast path with Series.searchsorted: searchsorted is not interpreted",
+    "seeded/C16-R/patch.diff": "root selection by a per-name minimum depth (groupby('name')['depth'].transform('min')): a grouped transform as a row mask is not interpreted",
+    "seeded/C17-Q/patch.diff": "the comparison table built by concatenating a DICT of the non-empty summaries and re-indexing the columns: another construction; the rule knows the keyed concat of both summaries",
     "seeded/C03-L/patch.diff": "sort_events rewritten as a numpy time sort plus per-run comparison sorts: another sorting scheme; whether every run is covered is not decidable from the shape",
 }
 
